@@ -790,6 +790,16 @@ int32_t tlsVerify(ssl_t *ssl,
         {
             goto out_decode_error;
         }
+        /* RFC 5246, 7.4.3: the algorithm must be one of those we sent in
+           our signature_algorithms extension. */
+        if (findFromUint16Array(ssl->supportedSigAlgs,
+                        ssl->supportedSigAlgsLen,
+                        sigAlgTls) < 0)
+        {
+            psTraceErrr("Peer signed ServerKeyExchange with a signature " \
+                    "algorithm we did not offer\n");
+            goto out_illegal_parameter;
+        }
         psTracePrintTls13SigAlg(INDENT_HS_MSG,
                 "signature algorithm",
                 sigAlgTls,
